@@ -27,6 +27,33 @@ type c20Params struct {
 	N     int       `json:"n"`
 	Mode  string    `json:"mode"`
 	Reps  int       `json:"reps"` // consecutive runs of the same combined scenario value
+	// Nest > 0: the components are grouped into nested CombineScenarios calls (shape drawn from this seed);
+	// nesting is flattening, so the expected event log is the same
+	Nest uint64 `json:"nest,omitempty"`
+}
+
+// c20Nest combines the components through nested CombineScenarios calls.
+func c20Nest(comps []f1testing.ScenarioFn, r interface{ IntN(int) int }, depth int) (f1testing.ScenarioFn, int) {
+	if len(comps) <= 1 || depth > 3 {
+		return f1.CombineScenarios(comps...), depth
+	}
+	var parts []f1testing.ScenarioFn
+	maxd := depth
+	for i := 0; i < len(comps); {
+		n := 1 + r.IntN(len(comps)-i)
+		if n == len(comps) {
+			n = len(comps) - 1
+		}
+		if n == 1 && r.IntN(2) == 0 {
+			parts = append(parts, comps[i])
+		} else {
+			sub, d := c20Nest(comps[i:i+n], r, depth+1)
+			parts = append(parts, sub)
+			maxd = max(maxd, d)
+		}
+		i += n
+	}
+	return f1.CombineScenarios(parts...), maxd
 }
 
 func init() {
@@ -59,6 +86,9 @@ func init() {
 						cp.Timed = r.IntN(3) == 0
 					}
 					p.Comps = append(p.Comps, cp)
+				}
+				if i%4 == 1 && nc >= 2 {
+					p.Nest = 1 + r.Uint64()>>1
 				}
 				p.Reps = 1
 				if i%3 == 0 {
@@ -120,6 +150,12 @@ func c20Run(c *core.Case, o *core.Outcome) {
 	spec.MaxIterations = uint64(p.N)
 	spec.IgnoreDropped = true
 	combined := f1.CombineScenarios(comps...)
+	if p.Nest > 0 {
+		var depth int
+		combined, depth = c20Nest(comps, core.Rng(p.Nest, "nest"), 1)
+		o.MaxObs("max:nesting_depth", int64(depth))
+		o.AddObs("nested_cases", 1)
+	}
 	// consecutive runs share the registered scenario object, as with one f1.F1 instance executed twice
 	reg := scenarios.New()
 	for rep := 1; rep <= max(p.Reps, 1) && o.Verdict == core.Held; rep++ {
@@ -270,7 +306,7 @@ func c20Once(c *core.Case, o *core.Outcome, p *c20Params, spec engine.Spec, l *e
 		}
 	}
 	if len(p.Comps) >= 2 && faulty > 0 {
-		o.Sig("n=%d:faulty=%d:cut=%v:conc=%d:mode=%s", len(p.Comps), faulty, cutCount > 0, p.Conc, p.Mode)
+		o.Sig("n=%d:faulty=%d:cut=%v:conc=%d:mode=%s:nested=%v", len(p.Comps), faulty, cutCount > 0, p.Conc, p.Mode, p.Nest > 0)
 	}
 	o.Sample = map[string]any{"case": desc, "iterations": len(its), "cut": cutCount, "failed": wantFail}
 }
